@@ -14,6 +14,15 @@ static void check_case(vg::Src& s, vh::Ctx& c)
     FlowCase fc = gen_flow_case(s, o);
     int threads = thread_choice(s, true);
     std::vector<OpSpec> ops = { vg::op_single(threads, threads == 0 && s.coin()) };
+    bool mixed = s.chance(40);
+    if (mixed)
+    {
+        // the single router as the last operator of a mixed sequence (receiver tables as wide as
+        // the neighbourhood): the statement is about the state after the single router
+        ops.insert(ops.begin(), vg::op_multi(vg::slope_exp_value(s)));
+        if (s.coin())
+            ops.insert(ops.begin() + 1, vg::op_snap("m", true, false));
+    }
     size_t rounds = s.weighted({ 150, 70, 36 }) + 1;  // 1-3 updates on the same graph
     c.desc = fc.describe() + " ops=" + vg::describe(ops);
     c.announce();
